@@ -26,7 +26,7 @@ Expect(c) ==
       [] c \in {"raw_query_format", "unknown_query_format", "non_utf8_query"} -> 3      \* InvalidQuery
       [] c \in {"json_rawfmt", "json_unknownfmt", "slice_json", "struct_rawfmt"} -> 4   \* InvalidBody
       [] c \in {"json_undecodable", "json_emptybody", "typed_shape", "slice_wrongtype", "sliceref_wrongtype",
-                 "typed_trailing", "typed_trailing_utf8", "json_trailing"} -> 5      \* ParseError (a complete JSON value followed by more bytes is not a JSON body)
+                 "typed_trailing", "typed_trailing_utf8", "json_trailing", "json_utf8_badbyte", "ctx_utf8_badbyte"} -> 5      \* ParseError (a complete JSON value followed by more bytes is not a JSON body)
       [] c \in {"unknown_path", "registry_missing", "mount_sibling_missing"} -> 6                                \* MethodNotFound
       [] c = "handler_error" -> 4096                                                    \* the handler's own code
       [] c = "custom_err" -> 4100                                                       \* an error frame the custom handler built itself
